@@ -116,7 +116,7 @@ def run_real(contract, cfg, inputs, repo_src):
     obj = module
     for part in qual.split("."):
         obj = getattr(obj, part)
-    if hasattr(contract, "replay_call"):
+    if contract.snapshot(cfg) is not None:
         return contract.replay_call(ex, st, cfg, inputs, out)
     args = {}
     for pname in contract.params:
@@ -176,9 +176,69 @@ def _wrapres(ex, st, r):
     return V(_conc(ex, st, r), st)
 
 
-def refute(pid, key, label, obname, repo_src, replay_dir):
+def _judge(c, co, info):
+    """does the concrete outcome co confirm a violation?  (ZeroDivision/Overflow = outside the defined domain, A2)"""
+    info["requires_on_inputs"] = getattr(co, "requires", None)
+    info["raised"] = co.raised
+    info["clauses_on_real_code"] = co.clauses
+    info["eval_error"] = co.error
+    if getattr(co, "requires", None) and not all(v is True for v in co.requires.values()):
+        info["note"] = "inputs do not satisfy the precondition concretely (tolerance) - not a confirmed input"
+        return False
+    if co.raised is not None:
+        if co.raised.startswith(("ZeroDivisionError", "OverflowError", "FloatingPointError")):
+            info["note"] = "real function left the defined domain on these inputs (A2): " + co.raised
+            return False
+        if not getattr(c, "may_raise", False):
+            info["observed"] = f"real function raised {co.raised}"
+            return True
+        return False
+    failed = [k for k, v in co.clauses.items() if v is False]
+    if failed:
+        info["observed"] = f"clauses false on the real result: {failed}"
+        info["result"] = _jsonable(co.result)
+        return True
+    info["note"] = "real code satisfied every clause on these inputs (model infidelity or tolerance)"
+    return False
+
+
+def random_inputs(c, cfg, rnd):
+    """small random inputs from the parameter type specs (bounded refutation search; never used to claim a pass)"""
+    out = {}
+    sizes = {}
+    for pname, spec in c.params.items():
+        if pname in cfg:
+            continue
+        hint = getattr(c, "sample_hints", {}).get(pname)
+        if hint is not None:
+            out[pname] = hint(rnd, out)
+            continue
+        if isinstance(spec, tuple):
+            raise ValueError("tuple parameter")
+        if spec.kind == "int":
+            out[pname] = rnd.choice([0, 1, 1, 2, 2, 3, 4, 5])
+        elif spec.kind == "real":
+            out[pname] = rnd.choice([0.0, 0.5, 1.0, -1.0, 2.5, 0.07, 100.0, rnd.uniform(-3, 3), rnd.uniform(0, 50)])
+        elif spec.kind == "bool":
+            out[pname] = rnd.random() < 0.5
+        elif spec.kind == "seq":
+            n = rnd.choice([0, 1, 2, 3, 4, 6, 9])
+            if spec.kw.get("et") == "bool":
+                items = [rnd.random() < 0.5 for _ in range(n)]
+            else:
+                items = [rnd.choice([0.0, 1.0, -2.0, rnd.uniform(-5, 5), rnd.uniform(0, 100)]) for _ in range(n)]
+            out[pname] = {"seq": spec.kw["seqkind"], "items": items}
+        elif spec.kind in ("const", "none"):
+            out[pname] = spec.kw.get("value")
+        else:
+            raise ValueError(f"cannot sample {spec.kind}")
+    return out
+
+
+def refute(pid, key, label, obname, repo_src, replay_dir, seed=0):
     """re-run the unit in-process, find a model for the named obligation, replay it on the real code.
     returns dict describing what happened (written to the replay file by the caller)"""
+    import random
     reset_fresh()
     c = REGISTRY[key]
     cfgs = dict(c.configs_for(pid) if hasattr(c, "configs_for") else c.configs())
@@ -188,49 +248,67 @@ def refute(pid, key, label, obname, repo_src, replay_dir):
     rr = verify_contract(c, label, cfg, repo_src, snapshot_root=snap, ensure_filter=flt)
     ob = next((o for o in rr.obligations if o.name == obname), None)
     info = {"property": pid, "function": key, "config": label, "obligation": obname, "confirmed": False}
+    info["config_values"] = {k: repr(v) for k, v in cfg.items()}
     if ob is None:
         info["note"] = "obligation not regenerated"
         return info
     axioms = list(rr.ctx.global_axioms) + (list(c.extra_axioms(rr.ctx)) if hasattr(c, "extra_axioms") else [])
-    model, bound, status = find_model(ob, axioms, rr.ctx)
-    info["solver_status"] = status
     info["goal"] = str(z3.simplify(ob.goal))[:2000]
-    if model is None:
-        info["note"] = "no model (solver returned %s)" % status
-        return info
-    info["size_bound"] = bound
-    try:
-        inputs = extract_inputs(rr.ctx, model)
-    except Exception as e:
-        info["note"] = f"model could not be turned into inputs: {e}"
-        info["model"] = str(model)[:4000]
-        return info
-    info["inputs"] = inputs
-    info["config_values"] = {k: repr(v) for k, v in cfg.items()}
-    try:
-        co = run_real(c, cfg, inputs, repo_src)
-    except Exception as e:
-        info["note"] = f"replay harness error: {type(e).__name__}: {e}"
-        info["trace"] = traceback.format_exc(limit=5)
-        return info
-    info["requires_on_inputs"] = getattr(co, "requires", None)
-    info["raised"] = co.raised
-    info["clauses_on_real_code"] = co.clauses
-    info["eval_error"] = co.error
-    if getattr(co, "requires", None) and not all(v is True for v in co.requires.values()):
-        info["note"] = "model does not satisfy the precondition concretely (tolerance) - not a confirmed input"
-        return info
-    if co.raised is not None and not getattr(c, "may_raise", False):
-        info["confirmed"] = True
-        info["observed"] = f"real function raised {co.raised}"
-        return info
-    failed = [k for k, v in co.clauses.items() if v is False]
-    if failed:
-        info["confirmed"] = True
-        info["observed"] = f"clauses false on the real result: {failed}"
-        info["result"] = _jsonable(co.result)
+    attempts = []
+    reals = [v for v in rr.ctx.inputs.values() if is_sym(v) and z3.is_real(v)]
+    extra_sets = [[], [v != 0 for v in reals], [v > 0 for v in reals]]
+    for extra in extra_sets:
+        ob2 = type(ob)(ob.name, ob.kind, list(ob.hyps) + list(extra), ob.goal)
+        model, bound, status = find_model(ob2, axioms, rr.ctx)
+        info["solver_status"] = status if "solver_status" not in info or status == "sat" else info["solver_status"]
+        if model is None:
+            continue
+        att = {"size_bound": bound}
+        try:
+            inputs = extract_inputs(rr.ctx, model)
+        except Exception as e:
+            att["note"] = f"model could not be turned into inputs: {e}"
+            attempts.append(att)
+            continue
+        att["inputs"] = inputs
+        try:
+            co = run_real(c, cfg, inputs, repo_src)
+        except Exception as e:
+            att["note"] = f"replay harness error: {type(e).__name__}: {e}"
+            attempts.append(att)
+            continue
+        if _judge(c, co, att):
+            info.update(att)
+            info["confirmed"] = True
+            info["found_by"] = "solver model replayed on the real function"
+            return info
+        attempts.append(att)
+    # bounded refutation search on the real function (stated bound: 300 small random inputs)
+    if c.snapshot(cfg) is None or hasattr(c, "sample_inputs"):
+        rnd = random.Random(seed * 7919 + 17)
+        tried = 0
+        for _ in range(300):
+            try:
+                inputs = c.sample_inputs(rnd, cfg) if hasattr(c, "sample_inputs") else random_inputs(c, cfg, rnd)
+            except ValueError:
+                break
+            att = {"inputs": inputs}
+            try:
+                co = run_real(c, cfg, inputs, repo_src)
+            except Exception:
+                continue
+            tried += 1
+            if _judge(c, co, att):
+                info.update(att)
+                info["confirmed"] = True
+                info["found_by"] = f"bounded search on the real function ({tried} random small inputs tried)"
+                return info
+        info["bounded_search_tried"] = tried
+    info["attempts"] = attempts[:3]
+    if attempts:
+        info["note"] = attempts[-1].get("note")
     else:
-        info["note"] = "real code satisfied every clause on the model's inputs (model infidelity or tolerance)"
+        info["note"] = "no model (solver returned %s)" % info.get("solver_status")
     return info
 
 
